@@ -1,7 +1,7 @@
 (* ConnData.v — the data layer on top of Conn.cstep: concrete events as the harness delivers
    them (a view of the message bytes with every decoder's result), concrete observations
    with payload ids, SHIP ids, waiting values and close codes.  Definitions only. *)
-From Ship Require Import Base Conn.
+From Ship Require Import Base Conn ConnEvents.
 From ShipGen Require Import ConnTable.
 
 (* what the access-phase handler sees *)
@@ -41,38 +41,38 @@ Definition wcls_of (w : option N) : wcls :=
 
 Definition is_nil (b : bytes) : bool := match b with [] => true | _ => false end.
 
-(* which decoder consults a message received in state s, and what it sees *)
-Definition comp_for (s : N) (stored : bytes) (v : view) : msg :=
-  match s with
-  | 2 | 4 => MInit (v_init v)
-  | 8 | 11 =>
+(* which decoder consults a message received in a state of kind k, and what it sees *)
+Definition comp_for (k : skind) (stored : bytes) (v : view) : msg :=
+  match k with
+  | KInit => MInit (v_init v)
+  | KHello =>
       MHello (match v_hello v with
               | None => HelloErr
               | Some (p, w, pr) => Hello p (wcls_of w) pr
               end)
-  | 20 | 21 | 22 => MProt (v_prot v)
-  | 27 => MPin (v_pin v)
-  | 36 =>
+  | KProt => MProt (v_prot v)
+  | KPin => MPin (v_pin v)
+  | KAcc =>
       MAcc (match v_acc v with
             | VAccReq => AccReq | VAccErr => AccMethodsErr | VAccNoId => AccNoId
             | VAccId id => AccId (is_nil stored || bytes_eqb stored id) (is_nil id)
             | VAccNeither => AccNeither
             end)
-  | _ => MGarbage
+  | KNone => MGarbage
   end.
 
-(* the control event of a concrete event in state s; the environment's answers are only
-   looked at where the code asks for them *)
-Definition abs_ev (s : N) (stored : bytes) (e : eventx) : cevx :=
-  let trust_rel := N.eqb s 2 || N.eqb s 4 in
-  let allow_rel := trust_rel || N.eqb s 8 || N.eqb s 11 in
+(* the control event of a concrete event in control state c (ConnEvents explains the
+   canonicalisation and the realisability conditions) *)
+Definition abs_ev (c : cs) (stored : bytes) (e : eventx) : cevx :=
+  let k := skind_of (st c) in
   let ce := match x_ev e with
-            | ERun => CRun
+            | ERun => if ran c then CNop else CRun
             | ERecv v =>
+                if wclosed c then CNop else
                 match v_dg v with
                 | NotDatagram =>
                     match v_cl v with
-                    | NoClose => CRecv NotDatagram NoClose (comp_for s stored v)
+                    | NoClose => CRecv NotDatagram NoClose (comp_for k stored v)
                     | cl => CRecv NotDatagram cl MGarbage
                     end
                 | dg => CRecv dg NoClose MGarbage
@@ -80,10 +80,11 @@ Definition abs_ev (s : N) (stored : bytes) (e : eventx) : cevx :=
             | ETimeout => CTimeout | EConnErr => CConnErr | EWClosed => CWClosed
             | EApprove => CApprove | EAbort => CAbort
             | EClose safe _ _ => CClose safe
-            | ESpineWrite _ => CSpineWrite
+            | ESpineWrite _ => if reader c then CSpineWrite else CNop
             | EDeferred => CDeferred
             end in
-  mkEv ce (trust_rel && x_paired e) (trust_rel && x_auto e) (negb allow_rel || x_allow e) (x_wf e).
+  mkEv ce (trust_rel k && x_paired e) (trust_rel k && x_auto e) (negb (allow_rel k) || x_allow e)
+       (cap_wf (x_wf e)).
 
 (* ---------------------------------------------------------------- concrete observations *)
 Inductive frame :=
@@ -92,7 +93,7 @@ Inductive frame :=
 
 Inductive obs :=
 | OReport (s : N) (e : bool) | OWrite (f : frame) (ok : bool)
-| OPairedQ | OAutoQ | OAllowQ | OSetup | OShipId (id : bytes) | ODeliver (p : N)
+| OPairedQ (a : bool) | OAutoQ (a : bool) | OAllowQ (a : bool) | OSetup | OShipId (id : bytes) | ODeliver (p : N)
 | OCloseData (code : N) (reason : bool) | OClosedCb (completed : bool)
 | OPanic | OHang | OFuel
 | OSnap (s : N) (e : bool) (armed : bool) (tty : N) (rd : bool) (buflen : N).
@@ -143,7 +144,7 @@ Fixpoint conc (d : dstate) (e : event) (l : list cobs) : dstate * list obs :=
         | BEv _ => (d, [])
         | BReport s er => (d, [OReport s er])
         | BWrite m ok => (d, [OWrite (frame_of d e m) ok])
-        | BPairedQ => (d, [OPairedQ]) | BAutoQ => (d, [OAutoQ]) | BAllowQ => (d, [OAllowQ])
+        | BPairedQ a => (d, [OPairedQ a]) | BAutoQ a => (d, [OAutoQ a]) | BAllowQ a => (d, [OAllowQ a])
         | BSetup => (d, [OSetup])
         | BShipId => (mkD (ev_presented e) (d_local d) (d_buf d), [OShipId (ev_presented e)])
         | BDeliver => (d, [ODeliver (ev_payload e)])
@@ -165,7 +166,7 @@ Definition init_state (r : role) (stored local : bytes) : state :=
 
 Definition step (s : state) (e : eventx) : state * list obs :=
   let '(c, d) := s in
-  let ce := abs_ev (st c) (d_stored d) e in
+  let ce := abs_ev c (d_stored d) e in
   let '(c', l) := cstep c ce in
   let '(d', os) := conc d (x_ev e) l in
   ((c', d'), os).
@@ -201,7 +202,8 @@ Definition obs_eqb (a b : obs) : bool :=
   match a, b with
   | OReport s e, OReport s' e' => N.eqb s s' && Bool.eqb e e'
   | OWrite f ok, OWrite f' ok' => frame_eqb f f' && Bool.eqb ok ok'
-  | OPairedQ, OPairedQ | OAutoQ, OAutoQ | OAllowQ, OAllowQ | OSetup, OSetup => true
+  | OPairedQ a, OPairedQ b | OAutoQ a, OAutoQ b | OAllowQ a, OAllowQ b => Bool.eqb a b
+  | OSetup, OSetup => true
   | OShipId i, OShipId i' => bytes_eqb i i'
   | ODeliver p, ODeliver p' => N.eqb p p'
   | OCloseData c r, OCloseData c' r' => N.eqb c c' && Bool.eqb r r'
